@@ -85,6 +85,27 @@ const STRATEGIES: [&str; 7] = [
 const PREDICATES: [&str; 4] = ["none", "accept all", "refuse all", "accept odd codes"];
 
 const BACKUP_BASE: u64 = 9_000_000;
+const READY_SERIAL: u64 = 424_242;
+
+/// inner service whose poll_ready fails
+#[derive(Clone)]
+struct FailReady {
+    code: u32,
+}
+impl Service<Req> for FailReady {
+    type Response = Resp;
+    type Error = SErr;
+    type Future = futures::future::BoxFuture<'static, Result<Resp, SErr>>;
+    fn poll_ready(&mut self, _cx: &mut std::task::Context<'_>) -> std::task::Poll<Result<(), SErr>> {
+        std::task::Poll::Ready(Err(SErr {
+            code: self.code,
+            serial: READY_SERIAL,
+        }))
+    }
+    fn call(&mut self, _req: Req) -> Self::Future {
+        Box::pin(async { unreachable!("called although readiness failed") })
+    }
+}
 const VF_BASE: u64 = 8_000_000;
 const FE_BASE: u64 = 7_000_000;
 const FRE_BASE: u64 = 6_000_000;
@@ -204,6 +225,34 @@ async fn run_grid(case: &FbCase) -> (Vec<String>, usize, Vec<serde_json::Value>)
                     };
                 }
                 let layer = b.build();
+                // an inner service whose readiness check fails with an error the predicate
+                // REFUSES: that error has to come back unchanged and the strategy must not run
+                if outcome != 0 {
+                    let code = if outcome == 1 { case.code_a } else { case.code_b };
+                    let refused = match pred {
+                        2 => true,
+                        3 => code % 2 == 0,
+                        _ => false,
+                    };
+                    if refused {
+                        let mut bad = layer.layer(FailReady { code });
+                        let inv0 = invoked.load(Ordering::SeqCst);
+                        let r = futures::future::poll_fn(|cx| bad.poll_ready(cx)).await;
+                        let same = matches!(&r, Err(FallbackError::Inner(e)) if e.code == code && e.serial == READY_SERIAL);
+                        if !same {
+                            violations.push(format!(
+                                "strategy {} / predicate {}: the inner service's readiness error (code {code}), which the predicate refuses, came back as {:?}",
+                                STRATEGIES[strat], PREDICATES[pred], r
+                            ));
+                        }
+                        if invoked.load(Ordering::SeqCst) != inv0 {
+                            violations.push(format!(
+                                "strategy {} / predicate {}: the strategy ran for a readiness error the predicate refuses",
+                                STRATEGIES[strat], PREDICATES[pred]
+                            ));
+                        }
+                    }
+                }
                 let mut svc = layer.layer(inner.clone());
                 // groups of calls issued together: singletons, or (overlap modes) the first call alone
                 // and all further calls of the cell in flight at once
